@@ -107,6 +107,12 @@ func c16Drain(dec vegeta.Decoder, n int) c16Out {
 
 func c16Targets(tr vegeta.Targeter) c16Out {
 	ts, err := vegeta.ReadAllTargets(tr)
+	// a targeter keeps being called after it has reported exhaustion or an error (every worker of a
+	// lazy attack does): those calls, too, must return a value or an error
+	for i := 0; i < 2; i++ {
+		var t vegeta.Target
+		_ = tr(&t)
+	}
 	return c16Out{len(ts), err}
 }
 
